@@ -59,6 +59,11 @@ class Sut(object):
 
 def make_env(spec, n):
     rcpts = ['r%d.%d@example.com' % (n, i) for i in range(max(1, min(5, int(spec.get('n', 1)))))]
+    dup = int(spec.get('dup', 0) or 0)
+    if dup and len(rcpts) > 1:
+        # the same address at two positions (the Queue allows it; delivery is recorded per position)
+        j = dup % len(rcpts)
+        rcpts[j] = rcpts[(j + 1 + dup // len(rcpts)) % len(rcpts)]
     env = Envelope('sender%d@example.com' % n if spec.get('sender', True) else '', rcpts)
     body = bytes.fromhex(spec.get('body', '')) if spec.get('body') else b'body %d\r\n' % n
     env.parse(b'Subject: message %d\r\nX-N: %d\r\n\r\n' % (n, n) + body)
@@ -284,6 +289,23 @@ def _run(sut, backend, ops):
                              'get(%s) at effect #%d of %r: recipients %r attempts %r, expected %r / %r'
                              % (idb, k, a, env.recipients, attempts, rcs, (mb['attempts'], ma['attempts'])))
                 continue
+            if op[0] == 'pair_write':
+                # a write overlapped with another write or with an operation on an existing message
+                a, b = op[1], op[2]
+                l = live()
+                idb = None
+                if b[0] != 'write':
+                    idb = pick(b[1], l)
+                    if idb is None or (b[0] == 'deliver' and model[idb]['marked']):
+                        continue
+                g1 = gevent.spawn(do, a)
+                g2 = gevent.spawn(do, b, idb)
+                gevent.joinall([g1, g2])
+                for g in (g1, g2):
+                    if g.exception is not None:
+                        raise g.exception
+                nontrivial = True
+                continue
             if op[0] == 'pair':
                 # two operations on different ids, overlapped in two greenlets
                 a, b = op[1], op[2]
@@ -327,7 +349,7 @@ def _run(sut, backend, ops):
 
 _idx = st.integers(0, 4)
 _ts = st.sampled_from([0.0, 1.5, 1000.125, 1234567890.25, 5.0, 5.0])
-_wspec = st.fixed_dictionaries({'n': st.integers(1, 5), 'sender': st.booleans(),
+_wspec = st.fixed_dictionaries({'n': st.integers(1, 5), 'sender': st.booleans(), 'dup': st.sampled_from([0, 0, 0, 1, 2, 3, 4, 7]),
                                 'body': st.sampled_from(['', '', 'c3a90d0a', '00ff0a', '2e0d0a' * 30])})
 _prim = st.one_of(
     st.tuples(st.just('write'), _wspec, _ts).map(list),
@@ -352,7 +374,9 @@ _mut2 = st.one_of(_mut, _mut, st.tuples(st.just('deliver'), _idx, st.lists(st.in
 _inter = st.tuples(st.just('interleave'), _mut2,
                    st.tuples(st.sampled_from(['rename', 'rename', 'mkstemp', 'unlink', 'chunk-write', 'any']), st.integers(0, 2)).map(list),
                    st.one_of(st.just(['load']), st.just(['load']), st.tuples(st.just('get'), _idx).map(list))).map(list)
+_write = st.tuples(st.just('write'), _wspec, _ts).map(list)
 _op = st.one_of(_prim, _prim, _prim, st.tuples(st.just('pair'), _pairable, _pairable).map(list),
+                st.tuples(st.just('pair_write'), _write, st.one_of(_write, _write, _pairable)).map(list),
                 st.tuples(st.just('pair_load'), _mut).map(list), _inter)
 _case = st.tuples(st.sampled_from(BACKENDS),
                   st.tuples(st.lists(st.tuples(st.just('write'), _wspec, _ts).map(list), min_size=2, max_size=5),
@@ -363,7 +387,7 @@ def run_shard(ctx):
     def one(v):
         backend, ops = v
         fails, nt = run_ops(backend, ops)
-        ctx.record(repr(v), nt, labels=['backend=' + backend] + (['overlap'] if any(o[0] in ('pair', 'pair_load') for o in ops) else []),
+        ctx.record(repr(v), nt, labels=['backend=' + backend] + (['overlap'] if any(o[0] in ('pair', 'pair_load', 'pair_write') for o in ops) else []),
                    case=lambda: {'backend': backend, 'ops': ops}, failures=fails)
     hyp.drive(ctx, _case, one, ctx.n(3000, 40000))
 
